@@ -260,6 +260,7 @@ int main(void) {
       /* real clock, generous: only "not early" is judged */
       struct timespec r0, m0, r1, m1; long ret = -1; double need = 0, er, em;
       in_op = 0;
+      g_myth_verif_clock = 0;      /* the library's own clock reading, not the hook's (restored after the operation) */
       { /* start at a random phase of the clock's tick (back-to-back sleeps would lock to it and hide a coarse clock) */
         static unsigned long ph = 12345; ph = ph * 6364136223846793005UL + 1442695040888963407UL;
         struct timespec b0, b1; long wait_ns = (long)((ph >> 33) % 4500000UL);
@@ -294,12 +295,14 @@ int main(void) {
         else { never_stop = 1; if (ret != 0) myth_join(h, 0); }
         er = elapsed_ns(&r0, &r1); em = elapsed_ns(&m0, &m1);
         /* a timeout is early only if both clocks say the deadline had not been reached */
+        g_myth_verif_clock = vclock;
         printf("ret=%ld early=%d\n", ret, (ret != 0 && er < need && em < need) ? 1 : 0);
         fflush(stdout);
         op_serial++;
         continue;
-      } else { printf("bad-op\n"); fflush(stdout); op_serial++; continue; }
+      } else { g_myth_verif_clock = vclock; printf("bad-op\n"); fflush(stdout); op_serial++; continue; }
       clock_gettime(CLOCK_REALTIME, &r1); clock_gettime(CLOCK_MONOTONIC, &m1);
+      g_myth_verif_clock = vclock;
       er = elapsed_ns(&r0, &r1); em = elapsed_ns(&m0, &m1);
       printf("ret=%ld early=%d\n", ret, (ret == 0 && er < need && em < need) ? 1 : 0);
     } else {
